@@ -27,7 +27,8 @@ PLANS = {
             ("runsim", "asan", "leaks", 30000, 300000, ("C07",))],
     "C05": [("heapsim", "asan", "soundness", 120000, 1500000), ("heapsim", "noguard", "soundness", 60000, 700000), ("heapsim", "asan", "accounting", 16000, 200000), ("heapsim", "asan", "oom", 16000, 200000)],
     "C06": [("heapsim", "asan", "misuse", 300000, 3000000), ("heapsim", "noguard", "misuse", 100000, 1000000), ("heapsim", "asan", "accounting", 20000, 200000)],
-    "C07": [("runsim", "asan", "leaks", 80000, 1500000), ("runsim", "noexc", "leaks", 40000, 500000)],
+    "C07": [("runsim", "asan", "leaks", 80000, 1500000), ("runsim", "noexc", "leaks", 40000, 500000),
+            ("runsim", "plain", "process", 8000, 150000, ("C11",))],      # leaking tests in forked children: the verdict must reach the parent
     "C08": [("mocksim", "asan", "verdict", 40000, 800000), ("mocksim", "asan", "cfront", 6000, 100000)],
     "C10": [("thrsim", "tsi", "threads", 16000, 400000), ("thrsim", "tsi", "locked_misuse", 16000, 300000)],
     "C11": [("runsim", "asan", "process_syn", 160000, 2000000), ("runsim", "plain", "process", 30000, 400000), ("runsim", "noexc", "process_syn", 40000, 400000)],
